@@ -561,8 +561,15 @@ func (r *rwRT) ruleGenEnv() {
 		in := &Interp{W: r.w, MaxDepth: 6, Inline: func(f *ssa.Function) bool { return fnPkgPath(f) == pathCogen }}
 		env := env
 		in.OnCall = func(cc *CallCtx) []Answer {
-			if cc.Fn != nil && cc.Fn.Name() == "Getenv" {
+			if cc.Fn != nil && cc.Fn.Name() == "Getenv" && fnPkgPath(cc.Fn) == "os" {
 				return []Answer{{Ret: []AV{mkString(env)}}}
+			}
+			// os.LookupEnv: unset, and set-but-empty (both are "not in go:generate mode")
+			if cc.Fn != nil && cc.Fn.Name() == "LookupEnv" && fnPkgPath(cc.Fn) == "os" {
+				if env == "" {
+					return []Answer{{Ret: []AV{mkString(""), mkBool(false)}, Label: "unset"}, {Ret: []AV{mkString(""), mkBool(true)}, Label: "empty"}}
+				}
+				return []Answer{{Ret: []AV{mkString(env), mkBool(true)}}}
 			}
 			if cc.Fn != nil && cc.Fn.Name() == "Getwd" {
 				return []Answer{{Ret: []AV{mkString("/p/pkg"), Nil{}}}}
